@@ -5,7 +5,8 @@
 // executor, clone, immediate destruction), Parallel2DExecutor (grid 0..128, processors 1..32,
 // three range types, own or supplied executor, repeated execute), ParallelWorkQueue (queue size
 // 1..64, threads 1..16, one producer adding 0..2000 tasks with flushes at generated points,
-// destruction with or without pending work).  A generated *schedule tape* injects yields, bounded
+// destruction after a flush, or without flush in a constructed state: all workers busy + backlog queued /
+// some workers busy + queue drained).  A generated *schedule tape* injects yields, bounded
 // spins and short sleeps inside the Task callbacks (user code) and -- main tree only -- at the
 // libc condition-variable calls made by the library (interposed pthread_cond_wait/signal/
 // broadcast/join: no change to the library).
@@ -669,7 +670,7 @@ pbt::Config config() {
     c.maxShrinkExecs = 600; c.maxShrinkSecs = 25;
     c.rule = "rapidcheck tape -> one of {ParallelExecutor: threads 1..32 (incl. clone/default ctor), 1..5 execute() calls of 0..10000 tasks on one executor, destruction; "
              "Parallel2DExecutor: grid 0..128, processors 1..32, own or supplied executor, 1..3 execute() calls over the three range types; "
-             "ParallelWorkQueue: queue size 1..64, threads 1..16, one producer adding 0..2000 tasks in batches with generated flush points, final flush or destruction with pending work}; "
+             "ParallelWorkQueue: queue size 1..64, threads 1..16, one producer adding 0..2000 tasks in batches with generated flush points, final flush then destruction, or destruction without flush in a constructed state (1/2: every worker held busy by a gate task and a backlog of 1..12 tasks still queued; 1/4: generated number of busy workers, queue drained)}; "
              "schedule tape = hash-driven yield/spin density + per-unit rules (site, index class, yield/spin/sleep, magnitude) applied inside initialize/execute/finish and (main tree) at the library's "
              "pthread_cond_wait/signal/broadcast calls. Non-trivial: >= 2 threads, more tasks than threads (grid > 2 x threads), and at least one injected delay; distinct by tape hash. "
              "Directed (main tree): COMPLETE enumeration of the 2-D partition, grid 0..128 x processors 1..32 x 3 range types (exhaustive: true for that sub-space).";
